@@ -2,6 +2,9 @@
 #define BLUETOE_LINK_LAYER_L_L2CAP_SDU_BUFFER_HPP
 
 #include <bluetoe/buffer.hpp>
+#ifdef BLUETOE_VERIF_HOOKS
+#include <bluetoe/verif_hooks.hpp>
+#endif
 #include <bluetoe/codes.hpp>
 #include <bluetoe/bits.hpp>
 
@@ -99,7 +102,11 @@ namespace link_layer {
         void add_to_receive_buffer( const std::uint8_t*, const std::uint8_t* );
         void try_send_pdus();
 
+#ifdef BLUETOE_VERIF_HOOKS
+        verif_hooks::guarded_array< MTUSize + overall_overhead > receive_buffer_;
+#else
         std::uint8_t    receive_buffer_[ MTUSize + overall_overhead ];
+#endif
         std::uint16_t   receive_size_;
         std::size_t     receive_buffer_used_;
 
@@ -107,7 +114,11 @@ namespace link_layer {
         // it would not be possible to transparently replace commit_l2cap_transmit_buffer()
         // transparently with commit_transmit_buffer() for the case that fragmentation is not
         // used.
+#ifdef BLUETOE_VERIF_HOOKS
+        verif_hooks::guarded_array< MTUSize + overall_overhead > transmit_buffer_;
+#else
         std::uint8_t    transmit_buffer_[ MTUSize + overall_overhead ];
+#endif
         std::uint16_t   transmit_size_;
         std::size_t     transmit_buffer_used_;
     };
